@@ -3,7 +3,285 @@ package main
 // Translators of the group `router`.
 
 import (
+	"fmt"
+	"go/ast"
+	"go/token"
+	"strconv"
+	"strings"
+
 	. "vh/vhlib"
 )
 
-var gens = map[string]GenFn{}
+var gens = map[string]GenFn{"RouteSrc": genRouteSrc, "EndpointSrc": genEndpointSrc}
+
+// delegatesToBase: does `func (x *recv) FinalizeRequestHeaders(ctx, headers, requestInfo)` run the base implementation?
+//
+//	absent (method promoted from the embedded *RouteRuleImplBase)     -> true
+//	body = one call x.RouteRuleImplBase.FinalizeRequestHeaders(...) or x.finalizeRequestHeaders(...) with the three arguments -> true
+//	empty body                                                          -> false
+//	anything else                                                       -> not recognised
+func delegatesToBase(f *ast.File, recv string) (delegates bool, recognised bool) {
+	fd := FindFunc(f, recv, "FinalizeRequestHeaders")
+	if fd == nil {
+		return true, true
+	}
+	if fd.Body == nil || len(fd.Body.List) == 0 {
+		return false, true
+	}
+	if len(fd.Body.List) != 1 {
+		return false, false
+	}
+	es, ok := fd.Body.List[0].(*ast.ExprStmt)
+	if !ok {
+		return false, false
+	}
+	call, ok := es.X.(*ast.CallExpr)
+	if !ok || len(call.Args) != 3 {
+		return false, false
+	}
+	sel, ok := call.Fun.(*ast.SelectorExpr)
+	if !ok || (sel.Sel.Name != "FinalizeRequestHeaders" && sel.Sel.Name != "finalizeRequestHeaders") {
+		return false, false
+	}
+	// arguments must be the method's own parameters, in order
+	var params []string
+	for _, p := range fd.Type.Params.List {
+		for _, n := range p.Names {
+			params = append(params, n.Name)
+		}
+	}
+	if len(params) != 3 {
+		return false, false
+	}
+	for i, a := range call.Args {
+		id, ok := a.(*ast.Ident)
+		if !ok || id.Name != params[i] {
+			return false, false
+		}
+	}
+	switch x := sel.X.(type) {
+	case *ast.Ident: // x.finalizeRequestHeaders / x.FinalizeRequestHeaders would recurse for the exported name
+		if sel.Sel.Name == "FinalizeRequestHeaders" {
+			return false, false
+		}
+		return true, true
+	case *ast.SelectorExpr:
+		if x.Sel.Name == "RouteRuleImplBase" {
+			return true, true
+		}
+	}
+	return false, false
+}
+
+func strLit(e ast.Expr) (string, bool) {
+	bl, ok := e.(*ast.BasicLit)
+	if !ok || bl.Kind != token.STRING {
+		return "", false
+	}
+	s, err := strconv.Unquote(bl.Value)
+	return s, err == nil
+}
+
+func selName(e ast.Expr) string {
+	switch x := e.(type) {
+	case *ast.Ident:
+		return x.Name
+	case *ast.SelectorExpr:
+		return selName(x.X) + "." + x.Sel.Name
+	case *ast.CallExpr:
+		return selName(x.Fun) + "()"
+	}
+	return "?"
+}
+
+// genRouteSrc:
+//
+//	var_rule_finalizes / dsl_rule_finalizes : do the variable / DSL rule kinds apply the request header actions?
+//	redirect_strip : the (new scheme, port) pairs of chooseHost whose port is removed when the scheme changes
+//	redirect_fields_ok : the url.URL literal of chooseHost takes scheme/host/path from the rule with the current value as default and keeps the query
+func genRouteSrc(repo string) (string, error) {
+	var b strings.Builder
+	b.WriteString("From Coq Require Import List String.\nImport ListNotations.\nLocal Open Scope string_scope.\n")
+	ok := true
+	for _, it := range []struct{ file, recv, name string }{
+		{"pkg/router/variable_rule.go", "VariableRouteRuleImpl", "var_rule_finalizes"},
+		{"pkg/router/dsl_rule.go", "DslExpressionRouteRuleImpl", "dsl_rule_finalizes"},
+	} {
+		_, f, err := ParseGoFile(repo, it.file)
+		if err != nil {
+			return "", err
+		}
+		d, rec := delegatesToBase(f, it.recv)
+		if !rec {
+			ok = false
+		}
+		fmt.Fprintf(&b, "Definition %s := %v.\n", it.name, d)
+	}
+	// the http / rpc rule kinds must still be the known shape: finalizeRequestHeaders then finalizePathHeader(matched)
+	_, hf, err := ParseGoFile(repo, "pkg/router/http_rule.go")
+	if err != nil {
+		return "", err
+	}
+	for _, it := range []struct{ recv, field string }{{"PathRouteRuleImpl", "path"}, {"PrefixRouteRuleImpl", "prefix"}, {"RegexRouteRuleImpl", "regexStr"}} {
+		fd := FindFunc(hf, it.recv, "FinalizeRequestHeaders")
+		if fd == nil || fd.Body == nil || len(fd.Body.List) != 2 {
+			ok = false
+			continue
+		}
+		c1, ok1 := callOf(fd.Body.List[0])
+		c2, ok2 := callOf(fd.Body.List[1])
+		if !ok1 || !ok2 || !strings.HasSuffix(selName(c1.Fun), ".finalizeRequestHeaders") || !strings.HasSuffix(selName(c2.Fun), ".finalizePathHeader") ||
+			len(c2.Args) != 3 || !strings.HasSuffix(selName(c2.Args[2]), "."+it.field) {
+			ok = false
+		}
+	}
+	// redirect assembly
+	_, df, err := ParseGoFile(repo, "pkg/proxy/downstream.go")
+	if err != nil {
+		return "", err
+	}
+	fd := FindFunc(df, "downStream", "chooseHost")
+	if fd == nil {
+		return "", fmt.Errorf("chooseHost not found")
+	}
+	fieldsOK := false
+	var pairs [][2]string
+	nIf := 0
+	ast.Inspect(fd.Body, func(n ast.Node) bool {
+		switch x := n.(type) {
+		case *ast.CompositeLit:
+			if selName(x.Type) != "url.URL" {
+				return true
+			}
+			want := map[string][2]string{"Scheme": {"rule.RedirectScheme()", "currentScheme"}, "Host": {"rule.RedirectHost()", "currentHost"}, "Path": {"rule.RedirectPath()", "currentPath"}}
+			good := len(x.Elts) == 4
+			for _, el := range x.Elts {
+				kv, isKV := el.(*ast.KeyValueExpr)
+				if !isKV {
+					good = false
+					continue
+				}
+				key := selName(kv.Key)
+				if key == "RawQuery" {
+					if selName(kv.Value) != "currentQuery" {
+						good = false
+					}
+					continue
+				}
+				w, has := want[key]
+				call, isCall := kv.Value.(*ast.CallExpr)
+				if !has || !isCall || selName(call.Fun) != "getStringOr" || len(call.Args) != 2 || selName(call.Args[0]) != w[0] || selName(call.Args[1]) != w[1] {
+					good = false
+				}
+			}
+			fieldsOK = good
+		case *ast.IfStmt:
+			be, isBE := x.Cond.(*ast.BinaryExpr)
+			if !isBE || be.Op != token.NEQ || selName(be.X) != "u.Scheme" || selName(be.Y) != "currentScheme" {
+				return true
+			}
+			nIf++
+			// inside: host, port, err := net.SplitHostPort(u.Host); if err == nil { if (A) || (B) { u.Host = host } }
+			ast.Inspect(x.Body, func(m ast.Node) bool {
+				is2, isIf := m.(*ast.IfStmt)
+				if !isIf {
+					return true
+				}
+				or, isOr := is2.Cond.(*ast.BinaryExpr)
+				if !isOr || or.Op != token.LOR {
+					return true
+				}
+				for _, side := range []ast.Expr{or.X, or.Y} {
+					if p, isP := side.(*ast.ParenExpr); isP {
+						side = p.X
+					}
+					and, isAnd := side.(*ast.BinaryExpr)
+					if !isAnd || and.Op != token.LAND {
+						continue
+					}
+					l, lok := and.X.(*ast.BinaryExpr)
+					r, rok := and.Y.(*ast.BinaryExpr)
+					if !lok || !rok || l.Op != token.EQL || r.Op != token.EQL || selName(l.X) != "u.Scheme" || selName(r.X) != "port" {
+						continue
+					}
+					s, ok1 := strLit(l.Y)
+					p, ok2 := strLit(r.Y)
+					if ok1 && ok2 {
+						pairs = append(pairs, [2]string{s, p})
+					}
+				}
+				return true
+			})
+		}
+		return true
+	})
+	if nIf != 1 || len(pairs) != 2 {
+		ok = false
+	}
+	var ps []string
+	for _, p := range pairs {
+		ps = append(ps, fmt.Sprintf("(%s, %s)", CoqString(p[0]), CoqString(p[1])))
+	}
+	fmt.Fprintf(&b, "Definition redirect_strip : list (string * string) := %s.\n", CoqList(ps))
+	fmt.Fprintf(&b, "Definition redirect_fields_ok := %v.\n", fieldsOK)
+	fmt.Fprintf(&b, "Definition RouteSrc_translator_ok := %v.\n", ok)
+	return b.String(), nil
+}
+
+func callOf(s ast.Stmt) (*ast.CallExpr, bool) {
+	es, ok := s.(*ast.ExprStmt)
+	if !ok {
+		return nil, false
+	}
+	c, ok := es.X.(*ast.CallExpr)
+	return c, ok
+}
+
+// genEndpointSrc (C12): shape of istio1106 ConvertUpdateEndpoints: is TriggerClusterHostUpdate called inside the loop
+// over the localities (once per locality: the last one replaces the others) or once after it with the collected hosts?
+func genEndpointSrc(repo string) (string, error) {
+	var b strings.Builder
+	_, f, err := ParseGoFile(repo, "istio/istio1106/xds/conv/update.go")
+	if err != nil {
+		return "", err
+	}
+	fd := FindFunc(f, "xdsConverter", "ConvertUpdateEndpoints")
+	if fd == nil {
+		return "", fmt.Errorf("ConvertUpdateEndpoints not found")
+	}
+	inLocalityLoop, afterLoop := 0, 0
+	var walk func(n ast.Node, depthLocality int)
+	walk = func(n ast.Node, depthLocality int) {
+		ast.Inspect(n, func(m ast.Node) bool {
+			switch x := m.(type) {
+			case *ast.RangeStmt:
+				if ast.Node(x) == n {
+					return true
+				}
+				d := depthLocality
+				if strings.HasSuffix(selName(x.X), ".Endpoints") || strings.HasSuffix(selName(x.X), ".GetEndpoints()") {
+					d++
+				}
+				walk(x.Body, d)
+				return false
+			case *ast.CallExpr:
+				if strings.HasSuffix(selName(x.Fun), "TriggerClusterHostUpdate") && len(x.Args) == 2 {
+					if id, isID := x.Args[1].(*ast.Ident); isID && id.Name == "nil" {
+						return true // the "no endpoints at all" branch
+					}
+					if depthLocality > 0 {
+						inLocalityLoop++
+					} else {
+						afterLoop++
+					}
+				}
+			}
+			return true
+		})
+	}
+	walk(fd.Body, 0)
+	ok := (inLocalityLoop == 1 && afterLoop == 0) || (inLocalityLoop == 0 && afterLoop == 1)
+	fmt.Fprintf(&b, "Definition endpoints_update_per_locality := %v.\n", inLocalityLoop == 1)
+	fmt.Fprintf(&b, "Definition EndpointSrc_translator_ok := %v.\n", ok)
+	return b.String(), nil
+}
